@@ -147,6 +147,7 @@ def _programs() -> list[tuple]:
     )
     out.append(([O_['SVar'], 0, O_['Mu'], 0, O_['EVar'], 2, O_['Exists'], 2, O_['Implies'], O_['Publish']], [O_['Symbol'], 0, O_['Symbol'], 1, O_['App'], O_['Publish']], [O_['Symbol'], 0]))
     out.append(([O_['MetaVar'], 0, 0, 0, 1, 3, 0, 1, 5], [O_['MetaVar'], 1, 1, 2, 0, 0, 0, 0], [O_['CleanMetaVar'], 1, O_['MetaVar'], 0, 0, 1, 4, 0, 0, 2, 6, 7]))
+    out.append(([], [], [O_['SVar'], 1, O_['Mu'], 1, O_['Quantifier'], O_['Instantiate'], 1, 0, O_['SVar'], 1, O_['EVar'], 0, O_['App'], O_['Mu'], 1, O_['SVar'], 1, O_['CleanMetaVar'], 0, O_['ESubst'], 0, O_['Instantiate'], 1, 0]))
     out.append(([], [], [O_['EVar'], 1, O_['Quantifier'], O_['Instantiate'], 1, 0, O_['Prop1'], O_['Generalization'], 3]))
     return out
 
